@@ -515,7 +515,7 @@ impl C11 {
                     if new.preliminary_end_epoch as u128 != old.preliminary_end_epoch as u128 + attached / rate || attached % rate != 0 {
                         errs.push(format!("end {} -> {} for {attached} at rate {rate}", old.preliminary_end_epoch, new.preliminary_end_epoch));
                     }
-                    if new.claimed_amount != old.claimed_amount || new.emission_rate != old.emission_rate || new.owner != old.owner || new.start_epoch != old.start_epoch {
+                    if new.claimed_amount != old.claimed_amount || new.emission_rate != old.emission_rate || new.owner != old.owner || new.start_epoch != old.start_epoch || new.lp_denom != old.lp_denom || new.identifier != old.identifier || new.farm_asset.denom != old.farm_asset.denom || new.curve != old.curve {
                         errs.push("other farm fields changed".to_string());
                     }
                     if s.post.bal(&w.fm, &old.farm_asset.denom) != s.pre.bal(&w.fm, &old.farm_asset.denom) + attached {
